@@ -8,6 +8,7 @@ import Heathcliff.Proofs.C01V
 import Heathcliff.Proofs.C01X
 import Heathcliff.Proofs.C01Y
 import Heathcliff.Proofs.GenScalingSpec
+import Heathcliff.Proofs.GenDec12
 import Heathcliff.Proofs.GenRns8
 import Heathcliff.Proofs.GenRns19
 import Heathcliff.Proofs.GenContextC01
@@ -624,5 +625,18 @@ example : GenX.validate_bfv_consts HC.gz_exLevel.qs.toList HC.gz_exLevel.t.value
     .ok ([62, 79], [13, 13], [80, 96], 1, 13, 9) := by decide
 example : GenW.mulop_new 62 (HC.gz_exLevel.q 0) = .ok (HC.gz_exCdp.getD 0 default) ∧ GenW.mulop_new 79 (HC.gz_exLevel.q 1) = .ok (HC.gz_exCdp.getD 1 default) := by
   constructor <;> rfl
+
+/-! ### Phase 4m: the BGV decryption fix-up as regenerated from src/encryptor.rs (details in Props/C07.lean) -/
+theorem gen_bgv_decrypt_fixup_eq : type_of% @HC.gd_bgv_decrypt_eq := @HC.gd_bgv_decrypt_eq
+theorem gen_bgv_fixup_inverse_every_t : type_of% @HC.gd_bgvFixup_spec := @HC.gd_bgvFixup_spec
+theorem gen_bgv_fixup_composite_witness : type_of% @HC.gd_bgv_witness := @HC.gd_bgv_witness
+
+/-- the phase computation `dot_product_ct_sk_array` as regenerated: order of kernel calls / offsets = the model's, every size ≥ 2 -/
+theorem gen_dot_product_plan_eq : type_of% @HC.gd_dot_product_plan_eq := @HC.gd_dot_product_plan_eq
+theorem gen_dot_plan_witness : type_of% @HC.gd_dot_plan_witness := @HC.gd_dot_plan_witness
+
+theorem gen_bfv_decrypt_eq : type_of% @HC.gd_bfv_decrypt_eq := @HC.gd_bfv_decrypt_eq
+theorem gen_ckks_decrypt_eq : type_of% @HC.gd_ckks_decrypt_eq := @HC.gd_ckks_decrypt_eq
+theorem gen_decrypt_dispatch_eq : type_of% @HC.gd_decrypt_dispatch_eq := @HC.gd_decrypt_dispatch_eq
 
 end HC.C01
